@@ -114,8 +114,8 @@ class Extractor {
 
   std::vector<std::string> strings;
   std::unordered_map<std::string, unsigned> strIdx;
-  std::vector<std::string> fnJson, recJson, enumJson, varJson;
-  std::set<const Decl*> seenFn, seenRec, seenEnum, seenVar;
+  std::vector<std::string> fnJson, recJson, enumJson, varJson, tmplJson;
+  std::set<const Decl*> seenFn, seenRec, seenEnum, seenVar, seenTmpl;
 
   unsigned S(const std::string& s) {
     auto it = strIdx.find(s);
@@ -1325,6 +1325,41 @@ struct Visitor : RecursiveASTVisitor<Visitor> {
     X.EmitEnum(E);
     return true;
   }
+  // namespace-scope function templates (the public factories / algorithms): name, location and how many
+  // specialisations this unit instantiated with a body — an API entry no probe instantiates is analysed by no rule
+  bool VisitFunctionTemplateDecl(FunctionTemplateDecl* T) {
+    const FunctionDecl* P = T->getTemplatedDecl();
+    if (!P || !X.WantLoc(T->getLocation()) || !T->getDeclContext()->isNamespace() ||
+        !T->isThisDeclarationADefinition()) {
+      return true;
+    }
+    if (!X.seenTmpl.insert(T->getCanonicalDecl()).second) {
+      return true;
+    }
+    unsigned n = 0;
+    for (const FunctionDecl* S : T->specializations()) {
+      if (S->isDefined()) {
+        ++n;
+      }
+    }
+    unsigned line = 0;
+    std::string f = X.FileOf(T->getLocation(), &line);
+    Json J;
+    J.raw("{\"name\":");
+    J.num(X.S(T->getQualifiedNameAsString()));
+    J.raw(",\"file\":");
+    J.num(X.S(f));
+    J.raw(",\"line\":");
+    J.num(line);
+    J.raw(",\"inst\":");
+    J.num(n);
+    if (P->isDeleted()) {
+      J.raw(",\"deleted\":1");
+    }
+    J.raw("}");
+    X.tmplJson.push_back(std::move(J.s));
+    return true;
+  }
   bool VisitVarDecl(VarDecl* V) {
     X.EmitVar(V);
     // static locals are interesting too (mutable process state)
@@ -1385,6 +1420,10 @@ struct Consumer : ASTConsumer {
     os << "],\n\"vars\":[";
     for (size_t i = 0; i < X.varJson.size(); ++i) {
       os << (i ? ",\n" : "") << X.varJson[i];
+    }
+    os << "],\n\"templates\":[";
+    for (size_t i = 0; i < X.tmplJson.size(); ++i) {
+      os << (i ? ",\n" : "") << X.tmplJson[i];
     }
     os << "],\n\"records\":[";
     for (size_t i = 0; i < X.recJson.size(); ++i) {
